@@ -13,6 +13,7 @@
  *   S5: S1 with a memory-side cache between each package and its NUMA node
  *   S8: S1 with a second NUMA node (os_index 2) attached to Package0: heterogeneous memory, a node does not own its parent's nodeset
  *   S9: flat: Machine{ PU0 PU1 PU2 PU5 +NUMA0 }: every subset of the PUs is a legal new Group
+ *   S10: S1's packages and PUs with a single NUMA node attached to the machine (the node intersects every package, is inside none)
  *   S6: asymmetric, L2 filtered KEEP_STRUCTURE: Package0{L2{PU0}} Package1{L2{Core{PU1}}} Package2{Core{PU2}} +NUMA0 on the machine:
  *       the L2 and Core levels have the same width and only arity-1 parents but are NOT pairwise parent/child: nothing may be merged
  *   S7: L2 filtered KEEP_STRUCTURE above a Core with the same cpuset, twice: L2{Core{PU0 PU1} +NUMA0} L2{Core{PU2 PU5} +NUMA1}:
@@ -133,6 +134,13 @@ static int vp_seed_discover(struct hwloc_backend *b, struct hwloc_disc_status *d
       c->attr->cache.depth = 2; c->attr->cache.type = HWLOC_OBJ_CACHE_UNIFIED; c->attr->cache.size = 1024; c->attr->cache.linesize = 64;
       hwloc_obj_t r = hwloc__insert_object_by_cpuset(t, NULL, c, NULL); VP_ASSUME(r == c); s->obj[s->nobj++] = c; }
     s->numa[0] = vp_ins(t, HWLOC_OBJ_NUMANODE, 0, 0x03, 0x1); s->numa[1] = vp_ins(t, HWLOC_OBJ_NUMANODE, 1, 0x24, 0x2);
+    return 0;
+  }
+  if (vp_seed_id == 10) {
+    s->pu[0] = vp_ins(t, HWLOC_OBJ_PU, 0, 0x01, 0); s->pu[1] = vp_ins(t, HWLOC_OBJ_PU, 1, 0x02, 0);
+    s->pu[2] = vp_ins(t, HWLOC_OBJ_PU, 2, 0x04, 0); s->pu[3] = vp_ins(t, HWLOC_OBJ_PU, 5, 0x20, 0);
+    s->pkg[0] = vp_ins(t, HWLOC_OBJ_PACKAGE, 0, 0x03, 0); s->pkg[1] = vp_ins(t, HWLOC_OBJ_PACKAGE, 1, 0x24, 0);
+    s->numa[0] = vp_ins(t, HWLOC_OBJ_NUMANODE, 0, 0x27, 0x1);
     return 0;
   }
   if (vp_seed_id == 1 || vp_seed_id == 4 || vp_seed_id == 8) {
